@@ -46,6 +46,16 @@ AmpClauses ==
         Clause("amplitude-is-coherent-sum-of-its-chains",
                ObsTermBag(a) = ExpectedTermBag(Rec.trs, ObsKey(a), Canonical),
                <<ObsKey(a), ObsTermBag(a), ExpectedTermBag(Rec.trs, ObsKey(a), Canonical)>>)
+  \* each named intensity component is |coherent sum of all chains with those outer projections, over all topologies|^2
+  /\ \A i \in DOMAIN Rec.icomps :
+        LET c == Rec.icomps[i]
+            keys == { k \in ExpectedKeys(Rec.trs) : k[2] = c.hel2 }
+            chains == UNION { ExpectedChains(Rec.trs, k) : k \in keys }
+            ts == { Term(x[2], Canonical) : x \in chains }
+            expected == [ t \in ts |-> Cardinality({ x \in chains : Term(x[2], Canonical) = t }) ]
+        \* (a component that sympy has rewritten into another shape is judged numerically by the driver: c.numeric_ok)
+        IN /\ Clause("intensity-component-is-partial-sum",
+                     IF c.shape_ok = 1 THEN ObsTermBag(c) = expected ELSE c.numeric_ok = 1, <<c.hel2, c.shape_ok>>)
   /\ Stat("chains", Len(Rec.trs))
 
 \* ---- C03: parity partners ----------------------------------------------------------------------
